@@ -5,6 +5,7 @@ import (
 	"strings"
 	"testing"
 
+	"verif.local/sim/cluster"
 	"verif.local/sim/harness"
 	"verif.local/sim/refredis"
 	"verif.local/sim/resp2"
@@ -173,6 +174,20 @@ func (p c01) Gen(r *simhook.Rand, tier string, idx int) harness.Scenario {
 		// still empty may execute after a later request of the same connection, which C04 (not C01) judges
 		sc.Conns = append(sc.Conns, cs)
 	}
+	if r.Chance(1, 5) {
+		// class "migration": slots of the connections' keys migrate while the pipelines run, so that requests are
+		// answered ASK/MOVED and resent.  The order in which redirected requests execute is C04's subject; here each
+		// reply must still belong to its own request (value attributable to the request's key), one per request
+		sc.Class = "migration"
+		for i := 0; i < 1+r.Intn(4); i++ {
+			k := sc.Env.Preload
+			slot := r.Intn(cluster.NumSlots)
+			if len(k) > 0 {
+				slot = cluster.Slot(k[r.Intn(len(k))].K)
+			}
+			sc.Faults = append(sc.Faults, Fault{Kind: "mig-start", From: slot, Dst: r.Intn(sc.Env.Masters), AfterSend: r.Intn(200)})
+		}
+	}
 	return sc
 }
 
@@ -212,6 +227,12 @@ func (p c01) Run(t *testing.T, s harness.Scenario) harness.Outcome {
 				ci := ci
 				c.OnReply = func(c *world.Client, s *world.Sent) {
 					e := st.expected[ci][s.Idx]
+					if sc.Class == "migration" {
+						if v := belongsTo(sc, c, s); v != nil && st.bad == nil {
+							st.bad = v
+						}
+						return
+					}
 					if !e.Matches(s.Reply) && st.bad == nil {
 						st.bad = &simrtViolation{Clause: "kth-reply-is-kth-result",
 							Detail: fmt.Sprintf("connection %s: reply #%d is %s, but request #%d %s executed in program order yields %s",
@@ -237,6 +258,9 @@ func (p c01) Run(t *testing.T, s harness.Scenario) harness.Outcome {
 				return &simrtViolation{Clause: "no-trailing-bytes", Detail: fmt.Sprintf("connection %s: %d bytes after the last reply: %q", c.Name, len(c.Pending()), trunc(c.Pending(), 60))}
 			}
 		}
+		if sc.Class == "migration" {
+			return nil
+		}
 		// every forwarded sub-command was executed by a backend exactly once
 		acc := 0
 		for _, le := range w.env.Cluster.Log {
@@ -253,6 +277,98 @@ func (p c01) Run(t *testing.T, s harness.Scenario) harness.Outcome {
 	out := runRedis(t, sc, w)
 	out.Nontrivial = st.maxOut >= 2
 	return out
+}
+
+// belongsTo: under redirections the execution order is not judged, but a reply must be a reply to its own
+// request: a value read for a key is nil or one of the values this connection's program associates with that key
+// (keys are private to the connection and every written value is unique), a status reply matches the command.
+func belongsTo(sc *RedisScenario, c *world.Client, s *world.Sent) *simrtViolation {
+	rq := c.Script[s.Idx]
+	if len(rq.Raw) > 0 || len(rq.Args) < 2 {
+		return nil
+	}
+	name := strings.ToUpper(string(rq.Args[0]))
+	vals := func(key string) map[string]bool {
+		m := map[string]bool{}
+		for _, kv := range sc.Env.Preload {
+			if string(kv.K) == key {
+				m[string(kv.V)] = true
+			}
+		}
+		for _, cs := range sc.Conns {
+			if cs.Name != c.Name {
+				continue
+			}
+			for _, q := range cs.Reqs {
+				if len(q.Args) == 0 {
+					continue
+				}
+				if len(q.Args) >= 3 && strings.EqualFold(string(q.Args[0]), "SET") && string(q.Args[1]) == key {
+					m[string(q.Args[2])] = true
+				}
+				if strings.EqualFold(string(q.Args[0]), "MSET") {
+					for i := 1; i+1 < len(q.Args); i += 2 {
+						if string(q.Args[i]) == key {
+							m[string(q.Args[i+1])] = true
+						}
+					}
+				}
+			}
+		}
+		return m
+	}
+	appended := func(key string) bool {
+		for _, cs := range sc.Conns {
+			for _, q := range cs.Reqs {
+				if len(q.Args) >= 2 && strings.EqualFold(string(q.Args[0]), "APPEND") && string(q.Args[1]) == key {
+					return true
+				}
+			}
+		}
+		return false
+	}
+	bad := func(what string) *simrtViolation {
+		return &simrtViolation{Clause: "reply-belongs-to-request", Detail: fmt.Sprintf("connection %s request #%d %s was answered %s: %s", c.Name, s.Idx, describeReq(rq), s.Reply.String(), what)}
+	}
+	checkVal := func(key string, v resp2.Value) *simrtViolation {
+		if v.IsErr() || v.Null || appended(key) {
+			return nil
+		}
+		if v.Kind != resp2.Bulk {
+			return bad("a GET-like read is answered with a bulk string")
+		}
+		if !vals(key)[string(v.Str)] {
+			return bad(fmt.Sprintf("the value was never associated with key %q", key))
+		}
+		return nil
+	}
+	switch name {
+	case "GET":
+		if len(rq.Args) == 2 {
+			return checkVal(string(rq.Args[1]), s.Reply)
+		}
+	case "MGET":
+		if s.Reply.IsErr() {
+			return nil
+		}
+		if s.Reply.Kind != resp2.Array || len(s.Reply.Arr) != len(rq.Args)-1 {
+			return bad("MGET is answered with one element per key")
+		}
+		for i, k := range rq.Args[1:] {
+			if v := checkVal(string(k), s.Reply.Arr[i]); v != nil {
+				return v
+			}
+		}
+	case "SET", "MSET":
+		if !s.Reply.IsErr() && !(s.Reply.Kind == resp2.Simple && string(s.Reply.Str) == "OK") {
+			return bad("a SET is answered +OK or an error")
+		}
+	case "DEL", "EXISTS", "TOUCH", "UNLINK", "STRLEN", "APPEND", "INCR", "DECR", "RPUSH", "HSET":
+		if !s.Reply.IsErr() && s.Reply.Kind != resp2.Int {
+			return bad("the command is answered with an integer or an error")
+		}
+	}
+	return nil
 }
 
 func (p c01) Shrink(s harness.Scenario) []harness.Scenario { return shrinkRedis(s.(*RedisScenario)) }
